@@ -302,11 +302,18 @@ def build(run):
         Vq = FunctionSpace(mq, S.L(ufl.triangle, 1))
         fq, vq = Coefficient(Vq), TestFunction(Vq)
         forms["quadratic geometry, estimated degree given"] = fq * vq * dx(mq, metadata=md(estimated_polynomial_degree=3, quadrature_degree=4)) + fq * vq * ds(mq, metadata=md(estimated_polynomial_degree=(2, 1)))
-        exprs = {"scalar": sin(f) * g + f ** 2, "grad": grad(f * g), "indexed": w[i] * w[i], "tensor": ufl.outer(w, w) + ufl.Identity(2) * f,
+        exprs = {"cell average": ufl.cell_avg(f * g), "facet average": ufl.facet_avg(f) * g, "abs / conj / real": abs(f) + ufl.conj(g) * ufl.real(f), "transpose / sym": ufl.sym(ufl.outer(w, w)).T,
+                 "restricted": (f * g)("+"), "variable of variable": variable(variable(f) * g), "scalar": sin(f) * g + f ** 2, "grad": grad(f * g), "indexed": w[i] * w[i], "tensor": ufl.outer(w, w) + ufl.Identity(2) * f,
                  "cond": conditional(lt(f, g), f, g * c), "variable": variable(f * g) * f}
         return m, forms, exprs, dict(u=u, v=v, f=f, g=g, c=c, w=w, V=V)
 
     def snapshot(x):
+        try:
+            return _snapshot(x)
+        except RecursionError:
+            return {"repr": "<the object can no longer be printed / traversed: RecursionError (it contains itself)>"}
+
+    def _snapshot(x):
         with warnings.catch_warnings():
             warnings.simplefilter("ignore")
             snap = {"repr": repr(x)}
@@ -350,6 +357,24 @@ def build(run):
             twin_integrals.append(it.reconstruct(metadata={k: respell(v) for k, v in dict(it.metadata()).items()}, subdomain_id=sid2))
         twin = ufl.Form(twin_integrals)
         return (x.equals(twin), bool(x == twin), x != twin, twin.equals(x))
+
+    def _wrap_ops(x):
+        """Apply every unary operator of the language to x (and to the root operand of x): constructing a node on top of x must leave x alone."""
+        if not isinstance(x, C.Expr):
+            return None
+        ops = [ufl.cell_avg, ufl.facet_avg, abs, ufl.conj, ufl.real, ufl.imag, ufl.transpose, ufl.sym, ufl.skew, ufl.dev, ufl.tr, variable, ufl.exp, ufl.sqrt, ufl.sign,
+               (lambda e: e("+")), (lambda e: e("-")), (lambda e: -e), (lambda e: 2 * e), (lambda e: e + e), (lambda e: e * e), (lambda e: e / 2), (lambda e: e ** 2),
+               (lambda e: grad(e)), (lambda e: ufl.det(e)), (lambda e: ufl.inv(e)), (lambda e: ufl.as_vector([e, e])), (lambda e: ufl.inner(e, e)), (lambda e: ufl.outer(e, e)),
+               (lambda e: ufl.dot(e, e)), (lambda e: type(e)(*e.ufl_operands))]
+        out = []
+        for tgt in (x,) + tuple(o for o in x.ufl_operands if isinstance(o, C.Expr))[:2]:
+            for op in ops:
+                try:
+                    out.append(op(tgt))
+                except BaseException as ex:  # noqa: BLE001  (refusals of operands of the wrong shape are fine here)
+                    if isinstance(ex, (KeyboardInterrupt, SystemExit)):
+                        raise
+        return out
 
     def algs(T):
         from ufl.algorithms import (apply_algebra_lowering, apply_derivatives, apply_function_pullbacks, apply_geometry_lowering, apply_integral_scaling, apply_restrictions,
@@ -399,6 +424,7 @@ def build(run):
             ("== / != / equals with an equal form spelled differently", lambda x: _compare_with_twin(x)),
             ("form + form", lambda x: x + x), ("2*form", lambda x: 2 * x), ("-form", lambda x: -x), ("form(f)", lambda x: x * f if not isinstance(x, ufl.Form) else ufl.action(x)),
             ("Measure call / Integral.reconstruct", lambda x: [it.reconstruct(metadata={"q": 1}) for it in x.integrals()]),
+            ("operators of the language applied to the input (also to its root's own kind: avg of avg, abs of abs, ...)", lambda x: _wrap_ops(x)),
             ("str", lambda x: str(x)), ("check_arities", lambda x: check_arities.check_form_arity(x, x.arguments(), False)),
         ]
         flags = ["do_apply_function_pullbacks", "do_apply_integral_scaling", "do_apply_geometry_lowering", "preserve_geometry_types", "do_apply_default_renumbering",
@@ -446,9 +472,9 @@ def build(run):
                     after = snapshot(x)
                     if after != before:
                         diff_keys = [k for k in before if before[k] != after.get(k)]
-                        return violated(f"{an} ({outcome}) changed its input '{xn}': {diff_keys} differ; e.g. {str(before[diff_keys[0]])[:160]} -> {str(after[diff_keys[0]])[:160]}",
+                        return violated(f"{an} ({outcome}) changed its input '{xn}': {diff_keys} differ; e.g. {str(before[diff_keys[0]])[:160]} -> {str(after.get(diff_keys[0]))[:160]}",
                                         replay={"algorithm": an, "input": xn, "changed": diff_keys, "before": {k: str(before[k])[:400] for k in diff_keys},
-                                                "after": {k: str(after[k])[:400] for k in diff_keys}}, reproduced=True, backend="exec(snapshot)")
+                                                "after": {k: str(after.get(k))[:400] for k in diff_keys}}, reproduced=True, backend="exec(snapshot)")
             return bounded_ok(ncalls, f"{len(inputs)} {target} x {len(AL)} algorithms/option sets, run one after the other on the same objects",
                               sample="repr, hash, signature, arguments, coefficients, metadata and node structure unchanged after every call")
         return thunk
